@@ -19,11 +19,14 @@ class Sub(Module, AutoCSR):
 
 
 class PA(Module, AutoCSR):
-    def __init__(self, bw):
+    def __init__(self, bw, pin0=False):
         # creation order differs from alphabetical order on purpose
         self.zreg = CSRStorage(bw, name="zreg", reset=0x5A)
         self.areg = CSRStorage(bw + 1, name="areg")
         self.stat = CSRStatus(bw, name="stat")
+        if pin0:
+            # created last, pinned to location 0 (`n=`: index in the bank's register list; the others fill the free locations in creation order)
+            self.ctrl = CSRStorage(bw, name="ctrl", reset=0x3, n=0)
 
 
 class PB(Module, AutoCSR):
@@ -38,9 +41,9 @@ class Plain(Module):
 
 
 class Source(Module):
-    def __init__(self, bw):
+    def __init__(self, bw, pin0=False):
         self.submodules.pb = PB(bw)          # created first, mapped to the higher page
-        self.submodules.pa = PA(bw)
+        self.submodules.pa = PA(bw, pin0)
         self.submodules.pc = Plain()         # no registers: must not get a bank
 
 
@@ -50,8 +53,8 @@ PAGES_HI = {("pa", None): 1, ("pb", None): 35, ("pb", "buf"): 34}
 
 
 class ArrayDUT(Module):
-    def __init__(self, bw, ordering, paging, aw=14, pages=PAGES):
-        self.submodules.src = src = Source(bw)
+    def __init__(self, bw, ordering, paging, aw=14, pages=PAGES, pin0=False):
+        self.submodules.src = src = Source(bw, pin0)
 
         def address_map(name, memory):
             return pages.get((name, None if memory is None else memory.name_override))
@@ -69,13 +72,13 @@ class CsrArrayHarness(Harness):
     conf_first = 60
     conf_every = 101
 
-    def __init__(self, name, bw=8, ordering="big", paging=0x400, aw=14, hi=False):
-        self.name, self.bw, self.ordering, self.paging = name, bw, ordering, paging
+    def __init__(self, name, bw=8, ordering="big", paging=0x400, aw=14, hi=False, pin0=False):
+        self.name, self.bw, self.ordering, self.paging, self.pin0 = name, bw, ordering, paging, pin0
         self.aw, self.PAGES = aw, (PAGES_HI if hi else PAGES)
         self.cov = set()
 
     def build(self):
-        self.dut = ArrayDUT(self.bw, self.ordering, self.paging, self.aw, self.PAGES)
+        self.dut = ArrayDUT(self.bw, self.ordering, self.paging, self.aw, self.PAGES, self.pin0)
         return self.dut
 
     def bind(self, D):
@@ -85,7 +88,7 @@ class CsrArrayHarness(Harness):
         pa, pb = d.src.pa, d.src.pb
         # reference layout: (page, [(register, size, reset)] in creation order)
         PAGES = self.PAGES
-        layout = [(PAGES[("pa", None)], [(pa.zreg, bw, 0x5A & ((1 << bw) - 1)), (pa.areg, bw + 1, 0), (pa.stat, bw, None)]),
+        layout = [(PAGES[("pa", None)], ([(pa.ctrl, bw, 0x3)] if self.pin0 else []) + [(pa.zreg, bw, 0x5A & ((1 << bw) - 1)), (pa.areg, bw + 1, 0), (pa.stat, bw, None)]),
                   (PAGES[("pb", None)], [(pb.sub.inner, 4, 0x9)])]
         self.words = {}          # bus address -> ("st", storage index, lo, hi) | ("ro", lo, hi) | ("mem", word)
         self.storages = []
@@ -181,6 +184,7 @@ ARRAYS = {
     "bankarray[bus8,big,paging=0x400] 2 objects + nested + memory, 2 masters": ("quick", dict(bw=8, ordering="big", paging=0x400)),
     "bankarray[bus8,little,paging=0x800] 2 objects + nested + memory, 2 masters": ("quick", dict(bw=8, ordering="little", paging=0x800)),
     "bankarray[bus32,big,paging=0x800] 2 objects + nested + memory, 2 masters": ("thorough", dict(bw=32, ordering="big", paging=0x800)),
+    "bankarray[bus8,big,paging=0x400,register pinned to location 0 created last] 2 objects + nested + memory, 2 masters": ("quick", dict(bw=8, ordering="big", paging=0x400, pin0=True)),
     "bankarray[bus8,big,paging=0x800,16-bit address,banks at pages 34/35] 2 objects + nested + memory, 2 masters": ("quick", dict(bw=8, ordering="big", paging=0x800, aw=16, hi=True)),
 }
 
